@@ -180,3 +180,12 @@ pub fn fclass(v: f32) -> usize {
     }
 }
 pub const FCLASS_NAMES: [&str; 8] = ["nan", "inf", "zero", "subnormal", "huge(>=1e30)", "negative", "unit(0,1]", "above1"];
+
+/// `v` moved by `k` units in the last place, kept inside [0, 1]
+pub fn nudge(v: f32, k: i64) -> f32 {
+    let b = v.to_bits() as i64 + k;
+    if b < 0 {
+        return 0.0;
+    }
+    f32::from_bits(b as u32).clamp(0.0, 1.0)
+}
